@@ -243,14 +243,30 @@ func canBeRequired(d Decl, calls []Call, i int) bool {
 // JSON values ----------------------------------------------------------------------------------------
 
 func validUTF8(s string) string {
-	if utf8.ValidString(s) {
-		return s
+	if !utf8.ValidString(s) {
+		s = strings.ToValidUTF8(s, "?")
 	}
-	return strings.ToValidUTF8(s, "?")
+	if yamlDoc {
+		// gopkg.in/yaml.v3 (trusted base, not under test) does not round-trip every string with line breaks or
+		// control characters (a key "\n" comes back as ""): YAML documents are generated without them
+		s = strings.Map(func(r rune) rune {
+			if r < 0x20 || r == 0x7f || r == 0x85 || r == 0x2028 || r == 0x2029 || r == 0xfeff {
+				return -1
+			}
+			return r
+		}, s)
+	}
+	return s
 }
 
 var numberLits = []string{"0", "-0", "1", "-1", "9223372036854775807", "-9223372036854775808", "9223372036854775808", "1.5", "0.1", "1e3", "1E+3", "2.5e-7",
 	"123456789012345678901234567890", "1e400", "3.141592653589793238462643383279"}
+
+// yamlDoc restricts the generated document to what a YAML document carries faithfully: numbers are int64 or
+// short decimal floats (no 30-digit literals, no 1e400).
+var yamlDoc bool
+
+var yamlNumberLits = []string{"0", "1", "-1", "9223372036854775807", "-9223372036854775808", "1.5", "0.25", "-2.5", "1e+21", "4294967296"}
 
 func genJSONValue(t *rapid.T, depth int) interface{} {
 	max := 7
@@ -261,6 +277,9 @@ func genJSONValue(t *rapid.T, depth int) interface{} {
 	case 0, 1:
 		return validUTF8(genStr(t, "js"))
 	case 2:
+		if yamlDoc {
+			return json.Number(rapid.SampledFrom(yamlNumberLits).Draw(t, "jnum"))
+		}
 		return json.Number(rapid.SampledFrom(numberLits).Draw(t, "jnum"))
 	case 3:
 		return json.Number(fmt.Sprint(rapid.Int64().Draw(t, "jint")))
@@ -421,7 +440,7 @@ func genOp(t *rapid.T, method string, maxCalls int, big bool) Op {
 	}
 	o.Payload = "none"
 	if method != "GET" {
-		o.Payload = rapid.SampledFrom([]string{"none", "json", "json", "form", "form", "multipart", "multipart", "multipart"}).Draw(t, "payload")
+		o.Payload = rapid.SampledFrom([]string{"none", "json", "json", "yaml", "form", "form", "multipart", "multipart", "multipart"}).Draw(t, "payload")
 	}
 	nq := rapid.IntRange(0, 4).Draw(t, "nqh")
 	for i := 0; i < nq; i++ {
@@ -430,7 +449,7 @@ func genOp(t *rapid.T, method string, maxCalls int, big bool) Op {
 		}
 	}
 	switch o.Payload {
-	case "json":
+	case "json", "yaml":
 		o.BodyType = rapid.SampledFrom([]string{"object", "object", "array"}).Draw(t, "body-type")
 	case "form", "multipart":
 		nf := rapid.IntRange(0, 3).Draw(t, "nform")
@@ -457,12 +476,14 @@ func genOp(t *rapid.T, method string, maxCalls int, big bool) Op {
 		for _, d := range o.Decls {
 			c.Vals = append(c.Vals, genVal(t, d))
 		}
-		if o.Payload == "json" {
+		if o.Payload == "json" || o.Payload == "yaml" {
+			yamlDoc = o.Payload == "yaml"
 			if o.BodyType == "array" {
 				c.Body = jsonText(genJSONArray(t, 2))
 			} else {
 				c.Body = jsonText(genJSONObject(t, 2))
 			}
+			yamlDoc = false
 		}
 		for range o.FileFields {
 			c.Files = append(c.Files, genFile(t, big))
